@@ -1,4 +1,6 @@
 import GeoVerif.Proofs.TM
+import GeoVerif.Proofs.TMCertGF
+import GeoVerif.Proofs.TMCertFG
 /-!
 # C06 — transverse Mercator (series and exact)
 
@@ -105,5 +107,24 @@ theorem clenshaw_complex (cs : List ℝ) (ξ η : ℝ) :
     toC (kr cs ξ η).1 = (⟨ξ, η⟩ : ℂ) + sinSum ⟨ξ, η⟩ 0 cs ∧
     toC (kr cs ξ η).2 = 1 + dcosSum ⟨ξ, η⟩ 0 cs :=
   Proofs.TM.clenshaw_complex cs ξ η
+
+/-! ## 3. table certificates (depend on `Gen.TMSeries`: re-checked against the source on every run) -/
+open GeoVerif.Series GeoVerif.Series.TMS
+
+/-- the layout consumes `alpcoeff` and `betcoeff` exactly (`N(N+3)/2` entries), `b1coeff` has `N/2 + 2` entries, and coefficient `l` of both
+    series is `O(n^l)` with leading terms `α₁ = n/2 + …`, `β₁ = n/2 + …` -/
+theorem table_shape : tableSize = Gen.TMSeries.alpcoeff.length ∧ tableSize = Gen.TMSeries.betcoeff.length ∧
+    Gen.TMSeries.b1coeff.length = TM.N / 2 + 2 ∧ checkShape = true := by decide +kernel
+
+/-- **`b1`**: `b1·(1 + n) = Σ_j C(½, j)² n^{2j} = 1 + n²/4 + n⁴/64 + n⁶/256 + …` (mod `n^{N+1}`), the mean of `√(1 + n² − 2n cos 2β)`, i.e. the
+    quarter meridian is `π a b1 / 2` -/
+theorem b1_table : checkB1 = true := by decide +kernel
+
+/-- **`alp` and `bet` are reversions of each other**: with `F(ζ) = ζ + Σ_j α_j sin 2jζ` and `G(ζ) = ζ − Σ_j β_j sin 2jζ` built from the two tables,
+    `G(F(ζ)) = ζ` modulo `n^{N+1}` (all harmonics; Taylor substitution in the truncated trigonometric-series CAS) -/
+theorem alp_bet_revert : checkRevertGF = true := Proofs.TMCert.revertGF
+
+/-- … and `F(G(ζ)) = ζ` modulo `n^{N+1}` -/
+theorem bet_alp_revert : checkRevertFG = true := Proofs.TMCert.revertFG
 
 end GeoVerif.Props.C06
